@@ -503,6 +503,9 @@ def run(chk):
     parsed = run_harness([{"op": "conv", "f": "json_parse", "text": t if t is not None else ""} for t in texts])
     sim = [i for i, (d, simple) in enumerate(docs) if simple]
     mser = dict(zip(sim, run_model(["conv ser " + " ".join(mtoks(docs[i][0])) for i in sim])))
+    tcp = [",".join(str(ord(c)) for c in t) if t else "-" for t in texts]
+    mreser = run_model([f"conv reser {t}" for t in tcp])
+    mparse = run_model([f"conv parse {t}" for t in tcp])
     for i, (doc, simple) in enumerate(docs):
         chk.evaluations += 1
         chk.count("json:" + ("simple" if simple else "wide"))
@@ -524,6 +527,13 @@ def run(chk):
             mt = "".join(chr(int(c)) for c in mser[i].split(",")) if mser[i] not in ("-", "bad-op") else mser[i]
             if mt != texts[i]:
                 chk.violation("tie:json:ser", f"model ser = {mt!r}, implementation = {texts[i]!r}", {"model": "conv ser " + " ".join(mtoks(doc)), "src": replay["src"]}, no_input=True)
+        # the Lean reader on the implementation's text: it must accept it, and re-serialising the value it read must give the same text
+        if mreser[i] != "ok " + ",".join(str(ord(c)) for c in texts[i]):
+            chk.violation("tie:json:parse", f"model parseJson/ser on the implementation's text {texts[i]!r} gives {mreser[i][:200]}",
+                          {"model": "conv reser " + ",".join(str(ord(c)) for c in texts[i]), "src": replay["src"]}, no_input=True)
+        elif i in mser and mparse[i] != "ok " + " ".join(mtoks(doc)):
+            chk.violation("tie:json:parse", f"model parseJson reads {texts[i]!r} as {mparse[i][:200]}, the document is {' '.join(mtoks(doc))}",
+                          {"model": "conv parse " + ",".join(str(ord(c)) for c in texts[i]), "src": replay["src"]}, no_input=True)
     chk.sample({"lang": jexprs[0], "document": pyjson.dumps(pyval(docs[0][0]))})
 
     # strings: escape (model / implementation / Python json.dumps) and unescape (model / json_deserialize / json.loads)
